@@ -16,7 +16,7 @@ import (
 )
 
 type key struct {
-	kind byte // 's' string, 'n' typed int, 'k' list of strings
+	kind byte // 's' string, 'n' typed int, 'k' list of strings, '0' $nil
 	s    string
 	n    int
 	l    []string
@@ -62,6 +62,8 @@ func (k key) tok() string {
 		return "s:" + common.Hex(k.s)
 	case 'n':
 		return "n:" + strconv.Itoa(k.n)
+	case '0':
+		return "knil"
 	}
 	parts := []string{"k["}
 	for _, s := range k.l {
@@ -184,6 +186,9 @@ func (p *parser) key() (key, bool) {
 		p.i++
 		n, _ := strconv.Atoi(t[2:])
 		return key{kind: 'n', n: n}, true
+	case t == "knil":
+		p.i++
+		return key{kind: '0'}, true
 	case t == "k[":
 		p.i++
 		k := key{kind: 'k'}
@@ -370,6 +375,8 @@ func keySrc(k key) string {
 		return parse.Quote(k.s)
 	case 'n':
 		return "(num " + strconv.Itoa(k.n) + ")"
+	case '0':
+		return "$nil"
 	}
 	parts := make([]string, len(k.l))
 	for i, s := range k.l {
@@ -544,6 +551,8 @@ func renderKeyGo(k any) string {
 		return "s:" + common.Hex(k)
 	case int:
 		return "n:" + strconv.Itoa(k)
+	case nil:
+		return "knil"
 	case vals.List:
 		parts := []string{}
 		for it := k.Iterator(); it.HasElem(); it.Next() {
@@ -686,6 +695,8 @@ func renderKeyVal(k key) string {
 		return "s:" + common.Hex(k.s)
 	case 'n':
 		return "n:" + strconv.Itoa(k.n)
+	case '0':
+		return "knil"
 	}
 	parts := make([]string, len(k.l))
 	for i, s := range k.l {
